@@ -251,7 +251,7 @@ pub fn run(cfg: &Cfg) -> (&'static str, Report, String, String) {
         if rng.chance(1, 3) {
             s.push('-');
         }
-        for _ in 0..rng.below(6) {
+        for _ in 0..(if i % 16 == 15 { 150 + rng.below(100) } else { rng.below(6) }) {
             s.push('0');
         }
         for _ in 0..rng.below(42) {
